@@ -19,6 +19,49 @@ from typing import Dict, Iterator, List, Optional, Tuple
 PKG = "ufo2ft"
 
 
+def _normalise_local_annotations(tree: ast.Module) -> None:
+    """Inside function bodies, `x: T = v` is the same statement as `x = v` for every rule
+    here: rewrite it to an Assign (the annotation is kept in `.ann`), so that adding or
+    removing a local type annotation can never change a verdict.  Class-level and
+    module-level annotated assignments (dataclass fields, constants) are left alone."""
+    def conv(stmts):
+        for i, st in enumerate(stmts):
+            if isinstance(st, ast.AnnAssign) and st.value is not None:
+                new = ast.Assign(targets=[st.target], value=st.value, type_comment=None)
+                ast.copy_location(new, st)
+                new.end_lineno, new.end_col_offset = getattr(st, "end_lineno", None), getattr(st, "end_col_offset", None)
+                new.ann = st.annotation
+                stmts[i] = new
+                st = new
+            if isinstance(st, ast.ClassDef):
+                for sub in st.body:
+                    if isinstance(sub, (ast.FunctionDef, ast.AsyncFunctionDef)):
+                        conv(sub.body)
+                    elif isinstance(sub, ast.ClassDef):
+                        conv([sub])
+                continue
+            for fld in ("body", "orelse", "finalbody"):
+                sub = getattr(st, fld, None)
+                if isinstance(sub, list) and sub and isinstance(sub[0], ast.stmt):
+                    conv(sub)
+            for h in getattr(st, "handlers", []) or []:
+                conv(h.body)
+
+    for top in tree.body:
+        if isinstance(top, (ast.FunctionDef, ast.AsyncFunctionDef)):
+            conv(top.body)
+        elif isinstance(top, ast.ClassDef):
+            conv([top])
+        else:
+            # functions nested in module-level if / try blocks
+            for fld in ("body", "orelse", "finalbody"):
+                for sub in getattr(top, fld, []) or []:
+                    if isinstance(sub, (ast.FunctionDef, ast.AsyncFunctionDef)):
+                        conv(sub.body)
+                    elif isinstance(sub, ast.ClassDef):
+                        conv([sub])
+
+
 class AnalysisError(Exception):
     """The analysis itself cannot proceed (vanished anchor, unparsable file, rule
     cannot interpret a function).  Reported as ANALYSIS-ERROR, exit 2."""
@@ -147,6 +190,7 @@ class Index:
                     tree = ast.parse(src, filename=path)
                 except SyntaxError as e:
                     raise AnalysisError(f"cannot parse {path}: {e}") from e
+                _normalise_local_annotations(tree)
                 mi = ModuleInfo(modname, path, os.path.relpath(path, self.root), tree, src)
                 self.modules[modname] = mi
                 self._index_module(mi, is_pkg=fn == "__init__.py")
